@@ -751,6 +751,28 @@ def normalise(tree):
                     return ast.copy_location(ast.AugAssign(target=t, op=v.op, value=v.right), n)
             return n
     tree = Aug().visit(tree)
+
+    class Rep(ast.NodeTransformer):
+        """`L.extend([x] * n)` (x a name or literal) -> `for _ in range(n): L.append(x)`"""
+        def visit_Expr(self, n):
+            c = n.value
+            if isinstance(c, ast.Call) and isinstance(c.func, ast.Attribute) and c.func.attr == 'extend' and len(c.args) == 1 and not c.keywords \
+                    and isinstance(c.args[0], ast.BinOp) and isinstance(c.args[0].op, ast.Mult):
+                a, b = c.args[0].left, c.args[0].right
+                if isinstance(b, ast.List):
+                    a, b = b, a
+                if isinstance(a, ast.List) and len(a.elts) == 1 and isinstance(a.elts[0], (ast.Name, ast.Constant)) and not isinstance(b, ast.List):
+                    app = ast.Expr(value=ast.Call(func=ast.Attribute(value=c.func.value, attr='append', ctx=ast.Load()), args=[a.elts[0]], keywords=[]))
+                    loop = ast.For(target=ast.Name(id='_rep_i', ctx=ast.Store()), iter=ast.Call(func=ast.Name(id='range', ctx=ast.Load()), args=[b], keywords=[]),
+                                   body=[app], orelse=[], type_comment=None)
+                    ast.copy_location(loop, n)
+                    ast.copy_location(app, n)
+                    for x in ast.walk(loop):
+                        if not hasattr(x, 'lineno'):
+                            ast.copy_location(x, n)
+                    return ast.fix_missing_locations(loop)
+            return n
+    tree = Rep().visit(tree)
     for fn in [x for x in ast.walk(tree) if isinstance(x, ast.FunctionDef)]:
         sites = {}
         for x in ast.walk(fn):
